@@ -194,9 +194,10 @@ pub(super) async fn process_command(
         ),
     };
 
-    // Check if the request was allowed (for THROTTLE commands)
+    // Check if the request was allowed (for THROTTLE commands only: other commands, e.g. PING
+    // echoing a client-supplied array, are never rate-limit decisions)
     let allowed = match &result {
-        RespValue::Array(values) if values.len() >= 5 => {
+        RespValue::Array(values) if command == "THROTTLE" && values.len() >= 5 => {
             matches!(&values[0], RespValue::Integer(1))
         }
         _ => true, // Non-throttle commands are considered allowed
